@@ -299,7 +299,7 @@ func sweep(cfg *hx.Config, wr *hx.Writer, add func(Case, string)) {
 		return
 	}
 	r := cfg.Rand
-	nseeds := 100
+	nseeds := 80
 	maxPerCall := 8
 	total := 0
 	type job struct{ c Case }
